@@ -102,6 +102,7 @@ type partition struct {
 	shardID              models.ShardID
 	currentNodeID        models.NodeID
 	mutex                sync.Mutex
+	replicaLogMutex      sync.Mutex // makes check of replica index and append atomic
 }
 
 // NewPartition creates a writeTask ahead log partition(db+shard+family time+leader).
@@ -142,6 +143,11 @@ func (p *partition) ReplicaLog(replicaIdx int64, msg []byte) (int64, error) {
 	if p.closed.Load() {
 		return 0, constants.ErrPartitionClosed
 	}
+	// NOTE: check index and append message must be atomic, the handlers of an old(broken) and a new replica stream
+	// of the same partition maybe run at the same time, else both append the message of same replica index.
+	p.replicaLogMutex.Lock()
+	defer p.replicaLogMutex.Unlock()
+
 	appendIdx := p.log.Queue().AppendedSeq() + 1
 	if replicaIdx != appendIdx {
 		return appendIdx, nil
